@@ -125,6 +125,7 @@ def input_untouched(ctx, o, eff: Effects):
             vf = prog.func(v)
             p0 = vf.params[-1] if vf.kind != 'method' else vf.params[1]
             bad = [k for k in eff.writes_star(vf) if k[1] != 'fresh' and ('param:' + p0 in k[1] or k[1].startswith('mixed') or k[1] == 'unknown')]
+            bad = [k for k in bad if not _bookkeeping_container(prog, eff, vf, k)]
             real = [k for k in bad if 'param:' + p0 in k[1]]
             if real:
                 for k in real:
@@ -135,6 +136,66 @@ def input_untouched(ctx, o, eff: Effects):
                     o.undecided(vf, vf.node, f"{unmangle(k[0])}@{k[1]}", "validator write with undetermined receiver: " + ' -> '.join(eff.explain(vf, k)[-2:]))
             else:
                 o.site(vf, vf.node, "writes*(validator) has nothing reachable from its argument")
+
+
+def _bookkeeping_container(prog, eff, vf, key):
+    """an `unknown`-rooted container mutation that comes from a NESTED function mutating a container of its enclosing function
+    (closure variable): harmless when that variable is a container allocated in the enclosing function, or a parameter of the
+    enclosing function that every caller in the package fills with a container it allocated itself (the loop check's
+    visited / validated sets)"""
+    if key[0] != '<container>' or key[1] != 'unknown':
+        return False
+    org = eff.write_origin(vf, key)
+    f_cur = vf
+    for _ in range(8):
+        if isinstance(org, tuple) and len(org) == 3:
+            callee = prog.funcs.get(org[1])
+            if callee is None:
+                return False
+            f_cur, org = callee, eff.write_origin(callee, org[2])
+        else:
+            break
+    w = org
+    if w is None or isinstance(w, tuple) or not isinstance(getattr(w, 'node', None), ast.Call):
+        return False
+    fn = w.node.func
+    if not (isinstance(fn, ast.Attribute) and isinstance(fn.value, ast.Name)):
+        return False
+    name = fn.value.id
+    inner = w.func
+    if name in inner.params or '.' not in inner.qual:
+        return False
+    outer = prog.funcs.get(inner.qual.rsplit('.', 1)[0])
+    if outer is None or any(d.kind != 'param' for d in flow_of(inner).defs_of(name)):
+        return False
+
+    def fresh_alloc(e):
+        return bool(match("set()", e) or match("[]", e) or match("{}", e) or match("dict()", e) or match("list()", e) or
+                    isinstance(e, (ast.Set, ast.List, ast.Dict, ast.ListComp, ast.SetComp, ast.DictComp)))
+    ds = flow_of(outer).defs_of(name)
+    if ds and all(d.kind == 'assign' and d.value is not None and fresh_alloc(d.value) for d in ds):
+        return True
+    if name in outer.params and all(d.kind == 'param' for d in ds):
+        idx = outer.params.index(name)
+        calls = []
+        for g in prog.all_funcs():
+            if isinstance(g.node, ast.Lambda):
+                continue
+            for c in facts.calls_named(g, outer.name):
+                calls.append((g, c))
+        if not calls:
+            return False
+        for g, c in calls:
+            if g is outer or g.qual.startswith(outer.qual + '.'):
+                continue        # recursive call handing its own parameter on
+            a = c.args[idx] if len(c.args) > idx else None
+            if not isinstance(a, ast.Name):
+                return False
+            gd = flow_of(g).defs_of(a.id)
+            if not (gd and all(d.kind == 'assign' and d.value is not None and fresh_alloc(d.value) for d in gd)):
+                return False
+        return True
+    return False
 
 
 def _harmless_consumer(call):
